@@ -1112,7 +1112,7 @@ func (dsc *dataStoreCommand) dictScanUnlocked(data *redisDict, cursor uint32, pa
 	count int,
 	isMatch func(item *redisDictItem) any) (output respValue) {
 	result := make([]any, 2)
-	matches := make([]any, 0, count)
+	matches := []any{} // COUNT is a hint from the client, not a size to allocate
 
 	highBit := uint32(len(data.buckets)) // always a power of 2
 	shift := 32 - bitPosition(highBit)
